@@ -417,6 +417,15 @@ Example falsy_key_dropped_everywhere :
   f_key ts (F None (EqK K0f)) = None /\ f_key ts (F None (EqK K0)) = Some K0.
 Proof. repeat split. Qed.
 
+(** The order found in the source of this run ends with the cache initialisation
+    (regenerated on every run; [None] = shape not recognised, nothing is claimed). *)
+Lemma source_init_tail_ends_with_cache_l :
+  match Gen.C04_consts.src_init_tail_read with
+  | Some t => ends_with_cache t = true
+  | None => True
+  end.
+Proof. vm_compute. first [reflexivity | exact I]. Qed.
+
 (** ** Part B *)
 Section SemProofs.
   Variable val : Type.
@@ -644,6 +653,99 @@ Section SemProofs.
     - apply IH. now apply step_inited.
   Qed.
 
+  (** *** construction with [__attrs_post_init__] *)
+
+  (** When the cache initialisation is the last event of the [__init__] tail, every
+      instance that construction hands out has an EMPTY cache, whatever the post-init
+      program did (hashed [self], assigned fields): it is [slot_ok] and [inited], so all
+      the theorems above apply to it. *)
+  Lemma run_tail_post c i t post :
+    run_tail val key ts eh ehash hres H c i (TPost :: t) post =
+    match run_post val key ts eh ehash hres H c i post with
+    | (Some i', ms) => let '(res, ms') := run_tail val key ts eh ehash hres H c i' t post in (res, ms ++ ms')
+    | (None, ms) => (None, ms)
+    end.
+  Proof. reflexivity. Qed.
+  Lemma run_tail_cache c i t post :
+    run_tail val key ts eh ehash hres H c i (TCache :: t) post =
+    run_tail val key ts eh ehash hres H c {| vals := vals i; slot := if cache c then CNone else slot i |} t post.
+  Proof. reflexivity. Qed.
+
+  Lemma run_tail_ends_fresh c post : forall tail i i' ms,
+    ends_with_cache tail = true -> cache c = true ->
+    run_tail val key ts eh ehash hres H c i tail post = (Some i', ms) -> slot i' = CNone.
+  Proof.
+    induction tail as [|e t IH]; intros i i' ms He Hc Hr; [discriminate|].
+    destruct t as [|e' t'].
+    - destruct e; [discriminate|]. cbn in Hr. rewrite Hc in Hr. now inversion Hr.
+    - assert (He' : ends_with_cache (e' :: t') = true) by exact He.
+      destruct e.
+      + rewrite run_tail_post in Hr.
+        destruct (run_post val key ts eh ehash hres H c i post) as [[i1|] ms1] eqn:Ep; [|discriminate].
+        destruct (run_tail val key ts eh ehash hres H c i1 (e' :: t') post) as [res ms2] eqn:Et.
+        inversion Hr; subst. exact (IH _ _ _ He' Hc Et).
+      + rewrite run_tail_cache in Hr. exact (IH _ _ _ He' Hc Hr).
+  Qed.
+
+  Lemma run_post_keeps_unset c : cache c = false -> forall post i i' ms, slot i = Unset ->
+    run_post val key ts eh ehash hres H c i post = (Some i', ms) -> slot i' = Unset.
+  Proof.
+    intros Ec. induction post as [|o r IH]; intros i i' ms Hs Hr; cbn in Hr.
+    - inversion Hr; subst; exact Hs.
+    - destruct o.
+      + unfold Model.do_hash in Hr. rewrite Ec in Hr.
+        destruct (run_post val key ts eh ehash hres H c i r) as [res m] eqn:E.
+        cbn in Hr. inversion Hr; subst. eapply IH; eauto.
+      + destruct (run_post val key ts eh ehash hres H c i r) as [res m] eqn:E.
+        cbn in Hr. inversion Hr; subst. eapply IH; eauto.
+      + destruct (run_post val key ts eh ehash hres H c i r) as [res m] eqn:E.
+        cbn in Hr. inversion Hr; subst. eapply IH; eauto.
+      + destruct (run_post val key ts eh ehash hres H c i r) as [res m] eqn:E.
+        cbn in Hr. inversion Hr; subst. eapply IH; eauto.
+      + destruct (run_post val key ts eh ehash hres H c i r) as [res m] eqn:E.
+        cbn in Hr. inversion Hr; subst. eapply IH; eauto.
+      + destruct (run_post val key ts eh ehash hres H c
+                    {| vals := upd val (vals i) n v; slot := slot i |} r) as [res m] eqn:E.
+        cbn in Hr. inversion Hr; subst. eapply IH; [|exact E]. exact Hs.
+      + destruct (run_post val key ts eh ehash hres H c i r) as [res m] eqn:E.
+        cbn in Hr. inversion Hr; subst. eapply IH; eauto.
+  Qed.
+
+  Lemma run_tail_keeps_unset c post : cache c = false -> forall tail i i' ms, slot i = Unset ->
+    run_tail val key ts eh ehash hres H c i tail post = (Some i', ms) -> slot i' = Unset.
+  Proof.
+    intros Ec. induction tail as [|e t IH]; intros i i' ms Hs Hr.
+    - cbn in Hr. inversion Hr; subst; exact Hs.
+    - destruct e.
+      + rewrite run_tail_post in Hr.
+        destruct (run_post val key ts eh ehash hres H c i post) as [[i1|] ms1] eqn:Ep; [|discriminate].
+        destruct (run_tail val key ts eh ehash hres H c i1 t post) as [res ms2] eqn:Et.
+        inversion Hr; subst. eapply IH; [|exact Et]. eapply run_post_keeps_unset; eauto.
+      + rewrite run_tail_cache, Ec in Hr. eapply IH; [|exact Hr]. exact Hs.
+  Qed.
+
+  Theorem construct_hands_out_fresh_l : forall tail c vs post i ms,
+    ends_with_cache tail = true ->
+    construct val key ts eh ehash hres H tail c vs post = (Some i, ms) ->
+    slot_ok c i /\ inited c i.
+  Proof.
+    intros tail c vs post i ms He Hc. unfold Model.construct in Hc.
+    destruct (cache c) eqn:Ec.
+    - pose proof (run_tail_ends_fresh c post tail _ _ _ He Ec Hc) as Hs.
+      split; [unfold slot_ok; now rewrite Hs | unfold inited; intros _; rewrite Hs; discriminate].
+    - split; [|unfold inited; congruence].
+      assert (Hs : slot i = Unset).
+      { eapply (run_tail_keeps_unset c post Ec tail {| vals := vs; slot := Unset |}); [reflexivity | exact Hc]. }
+      unfold slot_ok. now rewrite Hs.
+  Qed.
+
+  (** With the order post-init, then cache: the cache is not readable before construction
+      completes — a post-init that hashes [self] of a caching class fails loudly. *)
+  Theorem post_init_hash_refused_l : forall c vs post,
+    cache c = true ->
+    construct val key ts eh ehash hres H [TPost; TCache] c vs (OHash :: post) = (None, [MRaised]).
+  Proof. intros c vs post Hc. unfold Model.construct. cbn. unfold Model.do_hash. now rewrite Hc. Qed.
+
   (** K1 on the instance level: the subclass's initialiser built the instance, the
       base's caching [__hash__] is applied to it. *)
   Theorem inherited_caching_hash_refuted_l : forall base sub vs,
@@ -780,3 +882,38 @@ Section ScriptDenotes.
     - unfold make_hash_script; cbn. destruct (cache c), (frozen c); split; intros; congruence.
   Qed.
 End ScriptDenotes.
+
+(** The cache armed BEFORE post-init (and not reset after it): a post-init that hashes [self]
+    and then assigns a hashed field leaves a stale cached hash. *)
+Example cache_before_post_init_is_stale :
+  let c := Cl 0 0%Z [F None EqT] true false false true in
+  ends_with_cache [TCache; TPost] = false /\
+  construct_run nat fkey fts nat (fun v => v) fhres fH [TCache; TPost] c [0] [OHash; OSet 0 1] [OHash]
+  = [MHashed (0%Z, [0]) true; MDone; MHashed (0%Z, [0]) false] /\
+  fcompute c [1] = (0%Z, [1]) /\
+  construct_run nat fkey fts nat (fun v => v) fhres fH [TPost; TCache] c [0] [OHash; OSet 0 1] [OHash]
+  = [MRaised].
+Proof. cbn. repeat split; reflexivity. Qed.
+
+(** ** B, for instances built by a generated [__init__] that runs a post-init program *)
+Section FromConstruct.
+  Variable val : Type.
+  Variable key : keyid -> val -> val.
+  Variable ts : ktests.
+  Variable eh : Type.
+  Variable ehash : val -> eh.
+  Variable hres : Type.
+  Variable H : Z -> list eh -> hres.
+
+  Theorem constructed_instances_hash_correctly_l : forall tail c vs post i ms ops,
+    ends_with_cache tail = true ->
+    construct val key ts eh ehash hres H tail c vs post = (Some i, ms) ->
+    hash_returns val key ts eh ehash hres H c i ops /\
+    (forallb (fun o => negb (is_set val o)) ops = true ->
+     hashes_uncached val key ts eh ehash hres H c i ops).
+  Proof.
+    intros tail c vs post i ms ops He Hc.
+    destruct (construct_hands_out_fresh_l val key ts eh ehash hres H tail c vs post i ms He Hc) as [Hok Hin].
+    split; [now apply hash_total_l | intros Hn; now apply cached_equals_uncached_l].
+  Qed.
+End FromConstruct.
